@@ -6,6 +6,7 @@ CONSTANT MaxProofs = 3
 CONSTANT NInputs = 2
 CONSTANT NoRepeat = TRUE
 CONSTANT CheckRestore = TRUE
+CONSTANT Nondegenerate = TRUE
 CONSTANT Mutant = "none"
 INIT Init
 NEXT Next
